@@ -6,6 +6,7 @@
 //!   replay run    <family> <case>            exit 0 = all oracles hold, 1 = some oracle fails (prints FAIL lines)
 //!   replay search <family> <prop> <seed> <budget>   prints `FOUND <case>` + FAIL lines, or `NOTFOUND`
 mod conv_family;
+mod fmt_family;
 mod io_family;
 mod rng;
 
@@ -21,6 +22,7 @@ fn main() {
             let fails = match family {
                 "io" => io_family::run_case(&args[3]),
                 "conv" => conv_family::run_case(&args[3]),
+                "fmt" => fmt_family::run_case(&args[3]),
                 _ => {
                     eprintln!("unknown family {}", family);
                     std::process::exit(2);
@@ -49,6 +51,7 @@ fn main() {
             let found = match family {
                 "io" => io_family::search(prop, seed, budget),
                 "conv" => conv_family::search(prop, seed, budget),
+                "fmt" => fmt_family::search(prop, seed, budget),
                 _ => {
                     eprintln!("unknown family {}", family);
                     std::process::exit(2);
